@@ -63,6 +63,7 @@ let asset (toks : string list) : string =
        | Err _ -> "ser=err"
        | Panic _ -> raise Asset_panic)
     | [ "p"; bytes ] -> parse_s (parse_b bytes)
+    | [ "q"; bytes ] -> parse_s (parse_b bytes)      (* as p; the harness appends the measured allocation (no field-sized buffer in the model) *)
     | _ -> failwith "asset: bad case"
   with Asset_panic -> "PANIC"
 
